@@ -743,46 +743,8 @@ impl<'a, T: QueryToRelationTranslator + Copy + Clone> VisitedQueryRelations<'a, 
             offset,
             ..
         } = query;
-        match body.as_ref() {
-            ast::SetExpr::Select(select) => {
-                let RelationWithColumns(relation, columns) =
-                    self.try_from_select(select.as_ref())?;
-                if order_by.is_empty() && limit.is_none() && offset.is_none() {
-                    Ok(relation)
-                } else {
-                    // Build a relation with ORDER BY and LIMIT if needed
-                    let relation_builder = Relation::map();
-                    // We add all the columns
-                    let relation_builder = relation
-                        .schema()
-                        .iter()
-                        .fold(relation_builder, |builder, field| {
-                            builder.with((field.name(), Expr::col(field.name())))
-                        });
-                    // Add input
-                    let relation_builder = relation_builder.input(relation);
-                    // Add ORDER BYs
-                    let relation_builder: Result<MapBuilder<WithInput>> = order_by.iter().fold(
-                        Ok(relation_builder),
-                        |builder, ast::OrderByExpr { expr, asc, .. }| {
-                            Ok(builder?
-                                .order_by(expr.with(&columns).try_into()?, asc.unwrap_or(true)))
-                        },
-                    );
-                    // Add LIMITs
-                    let relation_builder: Result<MapBuilder<WithInput>> =
-                        limit.iter().fold(relation_builder, |builder, limit| {
-                            Ok(builder?.limit(self.try_from_limit(limit)?))
-                        });
-                    // Add OFFSET
-                    let relation_builder: Result<MapBuilder<WithInput>> =
-                        offset.iter().fold(relation_builder, |builder, offset| {
-                            Ok(builder?.offset(self.try_from_offset(offset)?))
-                        });
-                    // Build a relation with ORDER BY and LIMIT
-                    Ok(Arc::new(relation_builder?.try_build()?))
-                }
-            }
+        let RelationWithColumns(relation, columns) = match body.as_ref() {
+            ast::SetExpr::Select(select) => self.try_from_select(select.as_ref())?,
             ast::SetExpr::SetOperation {
                 op,
                 set_quantifier,
@@ -800,11 +762,52 @@ impl<'a, T: QueryToRelationTranslator + Copy + Clone> VisitedQueryRelations<'a, 
                         .left(left_relation)
                         .right(right_relation);
                     // Build a Relation from set operation
-                    Ok(Arc::new(relation_builder.try_build()?))
+                    let relation: Arc<Relation> = Arc::new(relation_builder.try_build()?);
+                    // ORDER BY can refer to the output columns of the set operation
+                    let columns = relation
+                        .schema()
+                        .iter()
+                        .map(|field| (vec![field.name().to_string()], field.name().into()))
+                        .collect();
+                    RelationWithColumns(relation, columns)
                 }
                 _ => panic!("We only support set operations over SELECTs"),
             },
             _ => todo!(),
+        };
+        if order_by.is_empty() && limit.is_none() && offset.is_none() {
+            Ok(relation)
+        } else {
+            // Build a relation with ORDER BY and LIMIT if needed
+            let relation_builder = Relation::map();
+            // We add all the columns
+            let relation_builder = relation
+                .schema()
+                .iter()
+                .fold(relation_builder, |builder, field| {
+                    builder.with((field.name(), Expr::col(field.name())))
+                });
+            // Add input
+            let relation_builder = relation_builder.input(relation);
+            // Add ORDER BYs
+            let relation_builder: Result<MapBuilder<WithInput>> = order_by.iter().fold(
+                Ok(relation_builder),
+                |builder, ast::OrderByExpr { expr, asc, .. }| {
+                    Ok(builder?.order_by(expr.with(&columns).try_into()?, asc.unwrap_or(true)))
+                },
+            );
+            // Add LIMITs
+            let relation_builder: Result<MapBuilder<WithInput>> =
+                limit.iter().fold(relation_builder, |builder, limit| {
+                    Ok(builder?.limit(self.try_from_limit(limit)?))
+                });
+            // Add OFFSET
+            let relation_builder: Result<MapBuilder<WithInput>> =
+                offset.iter().fold(relation_builder, |builder, offset| {
+                    Ok(builder?.offset(self.try_from_offset(offset)?))
+                });
+            // Build a relation with ORDER BY and LIMIT
+            Ok(Arc::new(relation_builder?.try_build()?))
         }
     }
 }
